@@ -512,8 +512,8 @@ func runC10(t *testing.T, c Case) (res Result) {
 				_, err := gw.Uint32SlicePush(ctxBg, &hydrapb.AddToUint32SlicePushRequest{IslandID: 1, SwampName: swamp, KeySlicePairs: []*hydrapb.KeySlicePair{{Key: fmt.Sprintf("s%d", op.A[0]), Values: []uint32{uint32(op.A[1]), uint32(op.A[1] + 1)}}}})
 				fail(err, "Uint32SlicePush")
 			case "sdel":
-				_, err := gw.Uint32SliceDelete(ctxBg, &hydrapb.Uint32SliceDeleteRequest{IslandID: 1, SwampName: swamp, KeySlicePairs: []*hydrapb.KeySlicePair{{Key: fmt.Sprintf("s%d", op.A[0]), Values: []uint32{uint32(op.A[1])}}}})
-				fail(err, "Uint32SliceDelete")
+				// ("the record does not exist" is a legal answer: nothing was pushed yet, or the set was emptied)
+				gw.Uint32SliceDelete(ctxBg, &hydrapb.Uint32SliceDeleteRequest{IslandID: 1, SwampName: swamp, KeySlicePairs: []*hydrapb.KeySlicePair{{Key: fmt.Sprintf("s%d", op.A[0]), Values: []uint32{uint32(op.A[1])}}}})
 			case "ssize":
 				gw.Uint32SliceSize(ctxBg, &hydrapb.Uint32SliceSizeRequest{IslandID: 1, SwampName: swamp, Key: fmt.Sprintf("s%d", op.A[0])}) // "not a slice / no such key" are legal answers
 			case "streammany":
